@@ -40,7 +40,7 @@ const bscEpoch = 4
 // signers, symbolic latest height) -- accepted iff it is a correctly sealed direct child.
 func H_C17_bsc_header() { bscHeader(false) }
 
-// H_C17_bsc_window: the recent-signer window in isolation: 2 (thorough: 2..3) validators, latest height 21, the last two blocks
+// H_C17_bsc_window: the recent-signer window in isolation: 2 (thorough: 2..3) validators, latest height 21 or 24, the last two blocks
 // sealed by arbitrary members (possibly the same one, as after a change of the set's size), an
 // otherwise faultless header. Run with every iteration order of the recents map.
 func H_C17_bsc_window() { bscHeader(true) }
@@ -66,8 +66,10 @@ func bscHeader(windowOnly bool) {
 		pubs = append(pubs, p)
 		vals = append(vals, addrOf(p))
 	}
-	latestH := uint64(21)
-	if !windowOnly {
+	var latestH uint64
+	if windowOnly {
+		latestH = []uint64{21, 24}[vp.Choice("latest.height.window", 2)] // header 22: no hand-over; header 25: the announced set takes over
+	} else {
 		latestH = vp.Uint64("latest.height")
 		vp.Assume(latestH >= 11 && latestH <= 97) // bound: two-digit heights (store keys spell heights in decimal)
 	}
